@@ -21,7 +21,9 @@ CONFIG = dict(
         note="The iterator/child functions are parameters: that cipher.MustGenerateDeterministicKeyPairsSeed really is an unfold of one "
              "step function (n then m from the returned seed = n+m) is what the correspondence checks; reload and lock/unlock are "
              "identities in the model (their fidelity is C18/C19 and is re-checked here by the tie). Collection wallets: entries = "
-             "inserted keys (tie only). Addresses abbreviated to 8 base58 characters in the protocol.",
+             "inserted keys (tie only). Addresses abbreviated to 8 base58 characters in the protocol. bip44 and xpub wallets are built "
+             "for both coin types (Skycoin / Bitcoin, chosen by the low bit of the case seed); the verify op also compares every "
+             "entry's address with the address the wallet coin's decoder gives its public key.",
         technique="Lean 4 proof over abstract derivation functions + differential correspondence on real wallets against a single-batch reference",
     ),
     translators=[],
